@@ -52,6 +52,10 @@ where
     let pos = s
         .find('=')
         .ok_or_else(|| format!("invalid KEY=value: no `=` found in `{s}`"))?;
+    // an empty name cannot be set in the process environment (`std::env::set_var` panics)
+    if pos == 0 {
+        return Err(format!("invalid KEY=value: empty KEY in `{s}`").into());
+    }
     Ok((s[..pos].parse()?, s[pos + 1..].parse()?))
 }
 
